@@ -267,6 +267,56 @@ Proof.
   destruct Hk as [<-|<-]; [now left|now right].
 Qed.
 
+Lemma no_wildcard_first_key_pre : ~ In K_Any first_keys.
+Proof.
+  intros H. assert (E : mem_Z K_Any first_keys = false) by (vm_compute; reflexivity).
+  assert (mem_Z K_Any first_keys = true); [|congruence].
+  clear E. induction first_keys as [|x r IH]; [destruct H|]. cbn [mem_Z].
+  destruct H as [->|H]; [now rewrite Z.eqb_refl|]. rewrite IH by exact H. apply orb_true_r.
+Qed.
+
+(* Audit item 2: the remainder [k; Escape] for a key k that is NOT the first
+   key of any multi-key row: no two-key row matches and no longer row can, so
+   the processor neither waits nor consumes both keys - exactly one key is
+   called or dropped and Escape is dispatched again on its own. *)
+Lemma two_keys_no_row tbl (v : Z -> bool) (k e : Z) (flush : bool) :
+  (forall b k1 k2 r, In b tbl -> bkeys b = k1 :: k2 :: r -> k1 <> k /\ k1 <> K_Any) ->
+  match_step tbl v [k; e] flush = DropOne \/ exists idx, match_step tbl v [k; e] flush = Call idx 1.
+Proof.
+  intros Hno.
+  assert (Hm : get_matches tbl v [k; e] = []).
+  { destruct (get_matches tbl v [k; e]) as [|[i b] r] eqn:E; [reflexivity|exfalso].
+    assert (Hin : In (i, b) (get_matches tbl v [k; e])) by (rewrite E; now left).
+    destruct (get_matches_in _ _ _ _ _ Hin) as (_ & Hn & Hl & Hk & _).
+    apply nth_error_In in Hn.
+    destruct (bkeys b) as [|k1 [|k2 r']] eqn:Eb; try (cbn in Hl; lia).
+    destruct (Hno b k1 k2 r' Hn Eb) as [A B].
+    cbn [keys_match] in Hk. apply andb_true_iff in Hk as [Hk _].
+    apply orb_true_iff in Hk as [Hk|Hk]; apply Z.eqb_eq in Hk; congruence. }
+  assert (Hp : is_prefix_of_longer tbl v [k; e] = false).
+  { unfold is_prefix_of_longer. destruct (existsb _ _) eqn:E; [exfalso|reflexivity].
+    apply existsb_exists in E as (b & Hb & _). apply starting_with_in in Hb as (Hin & Hl & Hk).
+    destruct (bkeys b) as [|k1 [|k2 r']] eqn:Eb; try (cbn in Hl; lia).
+    destruct (Hno b k1 k2 r' Hin Eb) as [A B].
+    cbn [keys_match] in Hk. apply andb_true_iff in Hk as [Hk _].
+    apply orb_true_iff in Hk as [Hk|Hk]; apply Z.eqb_eq in Hk; congruence. }
+  unfold match_step. rewrite Hm, Hp. cbn [filter]. destruct flush; cbn [negb last_idx rev];
+    change (length [k; e]) with 2%nat; cbn [longest_prefix firstn]; rewrite Hm; cbn [last_idx rev];
+    (destruct (last_idx (get_matches tbl v [k])) as [idx|]; [right; exists idx; reflexivity|left; reflexivity]).
+Qed.
+
+Lemma escape_after_non_pending_key (v : Z -> bool) (flush : bool) (k : Z) :
+  ~ In k first_keys ->
+  match_step bindings v [k; K_Escape] flush = DropOne \/
+  exists idx, match_step bindings v [k; K_Escape] flush = Call idx 1.
+Proof.
+  intros Hk. apply two_keys_no_row. intros b k1 k2 r Hin Eb.
+  assert (H1 : In k1 first_keys).
+  { unfold first_keys. apply nodup_In. apply in_flat_map. exists b. split; [exact Hin|rewrite Eb; now left]. }
+  split; [intros ->; contradiction|].
+  intros ->. pose proof no_wildcard_first_key_pre as W. apply W. exact H1.
+Qed.
+
 Lemma no_wildcard_first_key : mem_Z K_Any first_keys = false.
 Proof. vm_compute. reflexivity. Qed.
 
